@@ -544,6 +544,8 @@ def accept(repo):
             f.write(text)
 
 
+from . import frag_jp  # noqa: E402,F401  (registers fragment jp_report: tax_report_jp.py, C20)
+
 if __name__ == "__main__":
     repo = sys.argv[2] if len(sys.argv) > 2 else "/repo"
     if sys.argv[1] == "accept":
